@@ -172,6 +172,37 @@ def occurrences(program):
     return occ
 
 
+def shape_specs(rng):
+    """declarations with unusual key layouts: the same key concept twice (adjacent and not), a concept both as key and as plain
+    attribute, a concept used before its key concept is defined, a one-value definition of a concept with several attributes"""
+    out = []
+    nouns = ['team', 'round', 'node', 'nurse', 'shift', 'match', 'link', 'stage', 'player', 'court']
+    for _ in range(6):
+        a, b, m = rng.sample(nouns, 3)
+        base = f'A {a} is identified by an id.\nA {b} is identified by an id.\n'
+        dom = f'A {a} goes from 1 to 3.\nA {b} goes from 1 to 2.\n'
+        for decl, fact, cons in (
+                (f'A {m} is identified by a {a}, by a {b}, and by a {a}.', f'There is a {m} with {a} 1, with {b} 1, with {a} 3.',
+                 f'It is prohibited that there is a {m} with {a} X, with {b} R, with {a} X.'),
+                (f'A {m} is identified by a {a}, by a {a}, and by a {b}.', f'There is a {m} with {a} 1, with {a} 2, with {b} 1.',
+                 f'It is prohibited that there is a {m} with {a} X, with {a} X, with {b} R.'),
+                (f'A {m} is identified by a {a}, and has a {a}.', f'There is a {m} with {a} 1, with {a} 2.',
+                 f'It is prohibited that there is a {m} with {a} X, with {a} X.'),
+                (f'A {m} is identified by a {a}, and by a {b}, and has a {a}, and a size.', f'There is a {m} with {a} 1, with {b} 2, with {a} 3, with size 4.',
+                 f'It is prohibited that there is a {m} with {b} R, with size R.')):
+            out.append(base + decl + '\n' + dom + fact + '\n' + cons + '\n')
+        # used in a fact before the key concept gets its (implicit) definition
+        out.append(f'A {m} is identified by a {a}, and by an id.\nThere is a {m} with {a} 1, with id 2.\nA {a} goes from 1 to 3.\n'
+                   f'It is prohibited that there is a {m} with id 5.\n')
+        out.append(f'A {m} is identified by an id, and has a {a}.\nThere is a {m} with id 2, with {a} 1.\nA {a} goes from 1 to 3.\n'
+                   f'It is prohibited that there is a {m} with id 5.\n')
+    # a single value given for a concept with two attributes
+    for c, k, at in (('person', 'name', 'age'), ('city', 'name', 'size')):
+        out.append(f'A {c} is identified by a {k}, and has a {at}.\njohn is a {c}.\n'
+                   f'It is prohibited that there is a {c} with {k} X, with {at} Y, where Y is less than 3.\n')
+    return out
+
+
 def _spec_job(args):
     text, dirty = args
     from cnl2asp.cnl2asp import Cnl2asp
@@ -240,6 +271,8 @@ def main(tier):
     texts += [gen_wide.gen_spec(rng).text() for _ in range(n_wide)]
     # the rejected stream: if a faulty specification is (wrongly) accepted its atoms are checked like any other
     texts += [gen_wide.gen_faulty(rng)[0].text() for _ in range(n_wide // 3)]
+    shapes = shape_specs(rng)
+    texts += shapes
     dirty = ['A node is identified by an id, and by a name, and has a weight.\nA movie is identified by a node.\n'
              'There is a node with id 1, with name 2, with weight 3.\n',
              'A color is identified by an id, and has a level, and a rank.\nA room is identified by a color, and by a floor.\n', None]
@@ -268,6 +301,14 @@ def main(tier):
                 if pred.startswith('x_'):
                     continue
                 replay = {'cnl': r['text'], 'mode': mode, 'output': r[mode][1], 'symbols': r['symbols']}
+                # the failing construct, for the known-findings file: a one-value definition ('john is a person.') of a concept
+                # that has several attributes prints a fact of arity 1
+                one_value = bool(re.search(r'(?m)^\S+ is an? ' + re.escape(pred.replace('_', ' ')) + r'\.$', r['text'])) and 1 in arities \
+                    and re.search(r'(?m)^' + re.escape(pred) + r'\([^,()]*\)\.$', r[mode][1]) is not None
+                if one_value and len(arities) > 1:
+                    run.violation(f'{mode}/one-value-definition', f'predicate {pred} occurs with arities {sorted(arities)}: the one-value '
+                                  f'definition prints a fact of arity 1', replay)
+                    continue
                 if len(arities) > 1:
                     run.violation(f'{mode}/mixed-arity', f'predicate {pred} occurs with arities {sorted(arities)}', replay)
                 if pred not in reported:
